@@ -15,7 +15,8 @@ LEVEL = "exploration"
 RULE = (
     "Documents: templates, samples, decorated packages, generated text documents whose paragraphs put every "
     "ordered pair of {text, spaces, text:s, text:tab, text:line-break, span, link, note, annotation, frame, "
-    "bookmark, reference mark} adjacent (144 pairs, each also between words), optionally after 0-3 edits. Save "
+    "bookmark, reference mark, a lone NBSP, a lone U+202F} adjacent (196 pairs, each also between words and "
+    "between two inline elements), optionally after 0-3 edits. Save "
     "sequences of length 1-3 over configurations pretty in {False, True} x packaging in {zip, folder, xml}; in a "
     "third of the random sequences every zip save goes to one and the same BytesIO object or path (pretty first, "
     "plain last: the second archive is the smaller one). "
@@ -153,13 +154,16 @@ def run_case(case, res):
         prev = None
         seen_cfg = {}
         reuse = {} if case.get("reuse") else None
+        if case.get("reuse") == "folder":
+            reuse["occupant"] = case.get("occupant", "background.odp")
         for i, (pretty, packaging) in enumerate(case["saves"]):
             how = {"zip": "zip-io" if i % 2 else "zip-path", "folder": "folder", "xml": "xml-io"}[packaging]
-            if reuse is not None and packaging == "zip":
+            if reuse is not None and packaging == "zip" and case["reuse"] != "folder":
                 how = case["reuse"]  # every zip save of the sequence into the same BytesIO / the same path
             before = DL.expected_state(doc, model)
             try:
-                artefact, pkg = DL.save_doc(doc, how, tmp, pretty=pretty, tag=str(i) + str(case.get("name_key", "")), reuse=reuse)
+                use = reuse if (reuse is not None and (case["reuse"] != "folder" or packaging == "folder")) else None
+                artefact, pkg = DL.save_doc(doc, how, tmp, pretty=pretty, tag=str(i) + str(case.get("name_key", "")), reuse=use)
             except Exception as e:
                 import traceback
 
@@ -196,7 +200,7 @@ def run_case(case, res):
 
 
 def pair_spec(a, b, seed):
-    paras = [{"h": False, "pieces": [a, b]}, {"h": False, "pieces": ["text", a, b, "text"]}, {"h": True, "pieces": ["text", a, b]}, {"h": False, "pieces": [a, b, "text"]}]
+    paras = [{"h": False, "pieces": [a, b]}, {"h": False, "pieces": ["text", a, b, "text"]}, {"h": True, "pieces": ["text", a, b]}, {"h": False, "pieces": [a, b, "text"]}, {"h": False, "pieces": [a, b, "span"]}, {"h": False, "pieces": ["span", a, b, "link"]}]
     return {"type": "text", "seed": seed, "paras": paras, "table": False, "image": False}
 
 
@@ -235,10 +239,16 @@ def run(ctx, res):
         case = {"source": DL.gen_source(rng), "edits": DL.gen_edits(rng, rng.choice([0, 1, 3]), allow=["touch_body", "touch_styles", "append_paragraph", "meta_title", "insert_style", "table_set_value", "add_file_io", "insert_image_frame", "touch_manifest"]), "saves": saves}
         if rng.random() < 0.5:
             case["name_key"] = "k%d" % rng.randrange(500)
-        if rng.random() < 0.35:
+        r_ = rng.random()
+        if r_ < 0.35:
             # the zip saves of the sequence all go to one target, larger archive first
             case["reuse"] = rng.choice(["zip-io", "zip-io", "zip-path"])
             case["saves"] = [(True, "zip")] + saves + [(False, "zip")]
+        elif r_ < 0.55:
+            # the folder saves go to one place, which already holds a folder save of another document
+            case["reuse"] = "folder"
+            case["occupant"] = rng.choice(["background.odp", "example.odp", "frame_image.odp"])
+            case["saves"] = saves + [(rng.random() < 0.5, "folder")]
         v = run_case(case, res)
         if c < 2:
             res.sample(case)
@@ -253,7 +263,7 @@ def replay(case):
 
 
 MANIFEST = {
-    "text": "Exploration by runtime monitoring: templates, samples, decorated packages and generated paragraphs covering every ordered adjacency of twelve inline kinds are saved under every pretty x packaging configuration and in sequences of saves (a third of them writing every zip of the sequence into one BytesIO object or one path, the larger pretty archive first); an independent reader compares each artefact layout-insensitively (element skeleton, attribute values, O-TEXT reading of every paragraph and heading, other character data) with the in-memory state taken before the first save; a purity monitor compares the in-memory state before and after every save; repeated configurations must write equal content. Held = no difference on the saves observed, apart from listed known findings.",
+    "text": "Exploration by runtime monitoring: templates, samples, decorated packages and generated paragraphs covering every ordered adjacency of fourteen inline kinds (incl. lone no-break spaces) are saved under every pretty x packaging configuration and in sequences of saves (a third of them writing every zip of the sequence into one BytesIO object or one path, the larger pretty archive first); an independent reader compares each artefact layout-insensitively (element skeleton, attribute values, O-TEXT reading of every paragraph and heading, other character data) with the in-memory state taken before the first save; a purity monitor compares the in-memory state before and after every save; repeated configurations must write equal content. Held = no difference on the saves observed, apart from listed known findings.",
     "note": "Trusted: vf/oracles/odftext.py for 'white space consumers ignore', lxml, zipfile. Known finding F-D6 (pretty-print indentation leaking into paragraphs with non-text inline children) is classified by vf/known.py on the plain paragraph, not on the outcome.",
     "technique": "runtime monitoring: layout-insensitive independent reader of every artefact + before/after purity digest of the in-memory document",
 }
